@@ -335,9 +335,12 @@ func runC12(c *Ctx) {
 		r.Fatal("anchor missing: (*writeInPlaceHandlerImpl).CreateTempFile")
 		return
 	}
-	var isChmod func(ins ssa.Instruction) bool
+	// isChmodWith: ins is os.Chmod(temp, m) with m the Mode() of os.Stat(target) — or a call of a
+	// module helper every success return of which passes such a Chmod; bind maps the parameters of
+	// the helper under examination to what the call hands it.
+	var isChmodWith func(ins ssa.Instruction, bind map[*ssa.Parameter]ssa.Value) bool
 	chmodDepth := 0
-	isChmod = func(ins ssa.Instruction) bool {
+	isChmodWith = func(ins ssa.Instruction, bind map[*ssa.Parameter]ssa.Value) bool {
 		cc := callCommon(ins)
 		if cc == nil {
 			return false
@@ -346,6 +349,16 @@ func runC12(c *Ctx) {
 		if h := cc.StaticCallee(); h != nil && h.Blocks != nil && strings.HasPrefix(funcKey(h), "yqlib.") && calleeName(cc) != "os.Chmod" && chmodDepth < 2 {
 			chmodDepth++
 			defer func() { chmodDepth-- }()
+			inner := map[*ssa.Parameter]ssa.Value{}
+			for i, q := range h.Params {
+				if i < len(cc.Args) {
+					a := cc.Args[i]
+					if pp, isP := a.(*ssa.Parameter); isP && bind[pp] != nil {
+						a = bind[pp]
+					}
+					inner[q] = a
+				}
+			}
 			nret, all := 0, true
 			for _, b := range h.Blocks {
 				ret, ok := b.Instrs[len(b.Instrs)-1].(*ssa.Return)
@@ -357,7 +370,7 @@ func runC12(c *Ctx) {
 					continue
 				}
 				nret++
-				if pathAvoiding(h, h.Blocks[0], 0, b, len(b.Instrs)-1, isChmod) {
+				if pathAvoiding(h, h.Blocks[0], 0, b, len(b.Instrs)-1, func(i2 ssa.Instruction) bool { return isChmodWith(i2, inner) }) {
 					all = false
 				}
 			}
@@ -370,7 +383,11 @@ func runC12(c *Ctx) {
 		ok := false
 		var walk func(v ssa.Value, d int)
 		walk = func(v ssa.Value, d int) {
-			if d > 6 {
+			if d > 8 {
+				return
+			}
+			if pp, isP := v.(*ssa.Parameter); isP && bind[pp] != nil {
+				walk(bind[pp], d+1)
 				return
 			}
 			if call, isCall := v.(*ssa.Call); isCall {
@@ -390,6 +407,7 @@ func runC12(c *Ctx) {
 		walk(cc.Args[1], 0)
 		return ok
 	}
+	isChmod := func(ins ssa.Instruction) bool { return isChmodWith(ins, nil) }
 	missing := ""
 	nret := 0
 	for _, b := range ctf.Blocks {
